@@ -133,30 +133,34 @@ def render(markup: str, style: Union[str, Style] = "", emoji: bool = True) -> Te
                 if style_name:  # explicit close
                     style_name = normalize(style_name)
                     try:
-                        start, open_tag = pop_style(style_name)
+                        span_index, open_tag = pop_style(style_name)
                     except KeyError:
                         raise MarkupError(
                             f"closing tag '{tag.markup}' at position {position} doesn't match any open tag"
                         ) from None
                 else:  # implicit close
                     try:
-                        start, open_tag = pop()
+                        span_index, open_tag = pop()
                     except IndexError:
                         raise MarkupError(
                             f"closing tag '[/]' at position {position} has nothing to close"
                         ) from None
 
-                append_span(_Span(start, len(text), str(open_tag)))
+                spans[span_index] = _Span(
+                    spans[span_index].start, len(text), str(open_tag)
+                )
             else:  # Opening tag
                 normalized_tag = _Tag(normalize(tag.name), tag.parameters)
-                style_stack.append((len(text), normalized_tag))
+                # Reserve the span now, so that spans are kept in the order tags were opened
+                style_stack.append((len(spans), normalized_tag))
+                append_span(_Span(len(text), len(text), str(normalized_tag)))
 
     text_length = len(text)
     while style_stack:
-        start, tag = style_stack.pop()
-        append_span(_Span(start, text_length, str(tag)))
+        span_index, tag = style_stack.pop()
+        spans[span_index] = _Span(spans[span_index].start, text_length, str(tag))
 
-    text.spans = sorted(spans)
+    text.spans = spans
     return text
 
 
